@@ -18,3 +18,13 @@ for _fn in ("execute_string", "execute_list", "execute_set", "execute_hash", "ex
     M("c18_db_arg_" + _fn, ["C18"], "arg_flow", tier="quick",
       desc="UnifiedCommandExecutor::%s (commands issued by scripts through redis.call): every StorageEngine call that has a database parameter receives this function's db unchanged on every feasible path" % _fn,
       fn=r"UnifiedCommandExecutor::%s$|executor::.*::%s$" % (_fn, _fn), param="db", callee_params=["db", "db_index"])
+
+# redis.call / redis.pcall closures registered by LuaEngine::create_lua_context: both must hand the
+# script's database (captured ctx.db_index) to the command bridge, which hands it to the executor
+for _n, _what in ((2, "redis.call"), (4, "redis.pcall")):
+    M("c18_db_arg_lua_closure%d" % _n, ["C18"], "arg_flow", tier="quick",
+      desc="the %s closure of LuaEngine::create_lua_context passes the captured db_index (the database the script was started on) unchanged to execute_unified_redis_command" % _what,
+      fn=r"create_lua_context::\{closure#%d\}$" % _n, param="db_index", callee_params=["db", "db_index"])
+M("c18_db_arg_lua_bridge", ["C18"], "arg_flow", tier="quick",
+  desc="LuaEngine::execute_unified_redis_command passes its db_index unchanged to LuaCommandAdapter::execute_lua_command",
+  fn=r"::execute_unified_redis_command$", param="db_index", callee_params=["db", "db_index"])
